@@ -91,6 +91,12 @@ def lake_build(targets, timeout=1500):
 
 
 def build_harness():
+    # the harness always links the tree named by VERIF_REPO (default /repo)
+    modp = os.path.join(HARNESS, "go.mod")
+    mod = open(modp).read()
+    new = re.sub(r"(replace github.com/talostrading/sonic => ).*", r"\g<1>" + REPO, mod)
+    if new != mod:
+        open(modp, "w").write(new)
     sumsrc = os.path.join(REPO, "go.sum")
     sumdst = os.path.join(HARNESS, "go.sum")
     if os.path.exists(sumsrc):
